@@ -18,7 +18,7 @@ META = dict(
     text="every member of the cross product methods x targets x bodies {none, TLV with CR/LF bytes, nested JSON with escapes, bools, floats, unicode} x connected host {IPv4, IPv6, scoped IPv6} "
     "through get/put/post/put_json/post_json/post_tlv, and every pairing-API call (get/put characteristics over all id subsets, subscribe/unsubscribe, list accessories, identify, "
     "add/remove/list pairings, image) over secure sessions, plus the insecure pair-verify requests themselves; oracle: bytes equal the reference rendering, exactly one "
-    "transport call per request, JSON without insignificant whitespace and equal to the expected object, read URL ids exactly the requested ones Also: 2..4 overlapping callers with the accessory silent on the first (each request once on the wire, canonical); ordinary reads after a sloppy call with equal ids of another type. Also the general request() entry point with the method spelled in other cases.",
+    "transport call per request, JSON without insignificant whitespace and equal to the expected object, read URL ids exactly the requested ones Also: 2..4 overlapping callers with the accessory silent on the first (each request once on the wire, canonical); ordinary reads after a sloppy call with equal ids of another type. Also the general request() entry point with the method spelled in other cases. Also whole requests passing through exact multiples of the block size one byte at a time; reads of write-only ids and of ids the database does not contain.",
     note="weakest reading: PUT/POST with an empty body may omit the content headers or send Content-Length: 0 + type; header values outside the alphabet are not covered",
     design_ref="DESIGN.md §4 C09",
     rule="a case = one request issued (low-level or pairing API) on one host form; distinct = distinct (api, arguments, host); all are non-trivial",
